@@ -1,4 +1,5 @@
 import CircBuf.Lemmas.CoreTie
+import CircBuf.Lemmas.Tie.Live
 import CircBuf.Lemmas.NonDefect
 import CircBuf.Lemmas.HistoryConserve
 import CircBuf.Props.C01
@@ -9,8 +10,9 @@ import CircBuf.Props.C03
 `runOpSrc` is `runOp` (one step of a history: push / try_push / pop at both ends, remove, swap with
 its documented panics, swap_remove, truncate, clear, make_contiguous) with every operation taken
 from `Generated/Core.lean` — the definitions translated from the Rust bodies on this run.  By the
-tie theorems it is the same step as the model's on every state satisfying the invariant, and the
-invariant is re-established by every step; hence, by induction over the sequence, **any** history run
+tie theorems it is the same step as the model's on every state satisfying the invariant — up to the
+contents of the dead slots, which no operation reads (`Lemmas/LiveEq.lean`) — and the invariant is
+re-established by every step; hence, by induction over the sequence, **any** history run
 through the translated code produces the outputs, the final contents and the ledger of the same
 history on the abstract deque.
 -/
@@ -37,18 +39,6 @@ def runOpSrc : Op → M Out
   | .clear => do Gen.clear; pure .unit
   | .makeContiguous => do let _ ← Gen.make_contiguous; pure .unit
 
-maybe theorem runOpSrc_eq (op : Op) (s : Sys) (h : Inv s.buf) (hd : s.faults.drop = 0) :
-    runOpSrc op s = runOp op s := by
-  cases op <;>
-    simp only [runOpSrc, runOp, bind_run, attempt, tie_push_back _ s h (nd_pushBack _ s h),
-      tie_push_front _ s h (nd_pushFront _ s h), tie_try_push_back _ s h (nd_tryPushBack _ s h),
-      tie_try_push_front _ s h (nd_tryPushFront _ s h), tie_pop_back s h (nd_popBack s h),
-      tie_pop_front s h (nd_popFront s h), tie_remove _ s h (nd_remove _ s h),
-      tie_swap_remove_back _ s h (nd_swapRemoveBack _ s h), tie_swap_remove_front _ s h (nd_swapRemoveFront _ s h),
-      tie_swap _ _ s h (nd_swap _ _ s h), tie_truncate_back _ s h (nd_truncateBack_nofault _ s h hd),
-      tie_truncate_front _ s h (nd_truncateFront_nofault _ s h hd), tie_clear s h (nd_clear_nofault s h hd),
-      tie_make_contiguous s h (nd_makeContiguous s h)] <;> (try rfl)
-
 def runOpsSrc : List Op → Sys → List Out × Sys
   | [], s => ([], s)
   | op :: rest, s =>
@@ -56,24 +46,71 @@ def runOpsSrc : List Op → Sys → List Out × Sys
     | (.ok o, s') => let (os, s'') := runOpsSrc rest s'; (o :: os, s'')
     | (.error _, s') => ([], s')
 
-maybe theorem runOpsSrc_eq (cap : Nat) (ops : List Op) (s : Sys) (g : Good cap s) :
-    runOpsSrc ops s = runOps ops s := by
-  induction ops generalizing s with
-  | nil => rfl
-  | cons op rest ih =>
-    obtain ⟨s', e, g', _, _, _⟩ := step_refines cap s op g
-    simp only [runOpsSrc, runOps, runOpSrc_eq op s g.inv g.nodrop, e, ih s' g']
+maybe /-- one step of the translated code agrees with the model's step up to the dead slots: by the weak ties
+(`Lemmas/Tie/Live.lean`) for the single-element mutators, by the strong ones for the rest -/
+theorem runOpSrc_live (op : Op) (s : Sys) (h : Inv s.buf) (hd : s.faults.drop = 0) :
+    LiveEq (runOpSrc op s) (runOp op s) := by
+  cases op with
+  | pushBack x => exact LiveEq.map _ (ltie_push_back x s h (nd_pushBack _ s h))
+  | pushFront x => exact LiveEq.map _ (ltie_push_front x s h (nd_pushFront _ s h))
+  | tryPushBack x => exact LiveEq.map _ (ltie_try_push_back x s h (nd_tryPushBack _ s h))
+  | tryPushFront x => exact LiveEq.map _ (ltie_try_push_front x s h (nd_tryPushFront _ s h))
+  | popBack => exact LiveEq.map _ (ltie_pop_back s h (nd_popBack s h))
+  | popFront => exact LiveEq.map _ (ltie_pop_front s h (nd_popFront s h))
+  | remove i => exact LiveEq.map _ (ltie_remove i s h (nd_remove _ s h))
+  | swapRemoveBack i => exact LiveEq.map _ (ltie_swap_remove_back i s h (nd_swapRemoveBack _ s h))
+  | swapRemoveFront i => exact LiveEq.map _ (ltie_swap_remove_front i s h (nd_swapRemoveFront _ s h))
+  | swap i j =>
+    apply LiveEq.of_eq
+    simp only [runOpSrc, runOp, bind_run, attempt, tie_swap _ _ s h (nd_swap _ _ s h)]
+    rfl
+  | truncateBack n =>
+    apply LiveEq.of_eq
+    simp only [runOpSrc, runOp, bind_run, tie_truncate_back _ s h (nd_truncateBack_nofault _ s h hd)]
+  | truncateFront n =>
+    apply LiveEq.of_eq
+    simp only [runOpSrc, runOp, bind_run, tie_truncate_front _ s h (nd_truncateFront_nofault _ s h hd)]
+  | clear =>
+    apply LiveEq.of_eq
+    simp only [runOpSrc, runOp, bind_run, tie_clear s h (nd_clear_nofault s h hd)]
+  | makeContiguous =>
+    apply LiveEq.of_eq
+    simp only [runOpSrc, runOp, bind_run, tie_make_contiguous s h (nd_makeContiguous s h)]
+
+maybe /-- `step_refines` (the refinement of one step, `Lemmas/History.lean`) for the translated code -/
+theorem step_refines_src (cap : Nat) (s : Sys) (op : Op) (g : Good cap s) :
+    ∃ s', runOpSrc op s = (.ok (Spec.step cap (abs s.buf) op).2, s') ∧ Good cap s' ∧
+      abs s'.buf = (Spec.step cap (abs s.buf) op).1 ∧
+      s'.log = dropEvents s.kind (Spec.destroyed (abs s.buf) op) ++ s.log ∧ s'.kind = s.kind := by
+  obtain ⟨s', e, g', a, l, k, _, _⟩ := step_refines cap s op g
+  have hl := runOpSrc_live op s g.inv g.nodrop
+  rw [e] at hl
+  obtain ⟨b2, e2, hI2, ha2, hc2, _⟩ := LiveEq.ok hl g'.inv
+  exact ⟨{ s' with buf := b2 }, e2, ⟨hI2, by rw [hc2]; exact g'.cap_eq, g'.nodrop⟩, by rw [ha2]; exact a, l, k⟩
 
 maybe /-- **every finite history of the translated code** produces the outputs and the final contents of
 the same history on the abstract deque, and ends in a state satisfying the invariant -/
 theorem C01_history_src (cap : Nat) (ops : List Op) (s : Sys) (g : Good cap s) :
     (runOpsSrc ops s).1 = (Spec.runOps cap ops (abs s.buf)).1 ∧
     abs (runOpsSrc ops s).2.buf = (Spec.runOps cap ops (abs s.buf)).2 ∧ Good cap (runOpsSrc ops s).2 := by
-  rw [runOpsSrc_eq cap ops s g]; exact C01_history cap ops s g
+  induction ops generalizing s with
+  | nil => exact ⟨rfl, rfl, g⟩
+  | cons op rest ih =>
+    obtain ⟨s', e, g', a, _, _⟩ := step_refines_src cap s op g
+    obtain ⟨h1, h2, h3⟩ := ih s' g'
+    simp only [runOpsSrc, e, Spec.runOps]
+    rw [a] at h1 h2
+    exact ⟨by rw [h1], h2, h3⟩
 
 maybe /-- … and its ledger is exactly the destructions of the abstract steps (C03 along histories) -/
 theorem C03_history_ledger_src (cap : Nat) (ops : List Op) (s : Sys) (g : Good cap s) :
     (runOpsSrc ops s).2.log = Spec.histDrops s.kind cap ops (abs s.buf) ++ s.log := by
-  rw [runOpsSrc_eq cap ops s g]; exact C03_history_ledger cap ops s g
+  induction ops generalizing s with
+  | nil => simp [runOpsSrc, Spec.histDrops]
+  | cons op rest ih =>
+    obtain ⟨s', e, g', a, l, k⟩ := step_refines_src cap s op g
+    have := ih s' g'
+    simp only [runOpsSrc, e, Spec.histDrops]
+    rw [this, a, l, k, List.append_assoc]
 
 end CircBuf
